@@ -327,6 +327,12 @@ class Runner:
                 elif op == "rawreport":
                     ctl.report(act[1], 0, act[2], raw=True)
                     self.after_step()
+                elif op == "qread":
+                    # the queue as qmail-qread shows it, at a quiescent moment
+                    import subprocess
+                    e2 = sandbox.shim_env(self.tree, ids=ctl.ids, role="qread", clock=ctl.clockfile)
+                    p = subprocess.run([self.tree.bin("qmail-qread")], env=e2, stdout=subprocess.PIPE, stderr=subprocess.PIPE, timeout=30)
+                    ctl.emit({"c": "ctl", "op": "qread", "status": p.returncode, "hex": p.stdout.hex()})
                 elif op == "hostile":
                     # arbitrary bytes on a report channel, built with knowledge of what is in flight (C18 part 3)
                     for chan, data in self.hostile_bytes(act[1]):
@@ -438,6 +444,8 @@ def gen_history(rng, idx, thorough=False, many=False):
             script.append(("termrestart",))
         else:
             script.append(("advance", rng.choice([1, 99, 100, 101, 399, 400, 401, 3000])))
+    for _ in range(rng.choice([0, 1, 2])):
+        script.insert(rng.randint(1, len(script)), ("qread",))
     h = {"id": idx, "seed": rng.randrange(1 << 30), "messages": messages, "outcomes": outcomes, "script": script, "strict": 1,
          "conc": rng.choice([(10, 20), (10, 20), (1, 1), (2, 1), (0, 2), (1, 0)] if not many else [(1, 1), (2, 1), (1, 2), (2, 2), (3, 2), (0, 2), (2, 0), (5, 5)]),
          "announce": rng.choice([(120, 120), (120, 120), (1, 2), (2, 1)] if not many else [(120, 120), (1, 1), (1, 2), (2, 1), (3, 120)])}
